@@ -40,11 +40,25 @@ CLAIMED = {
             "real code in both formats and compared with the object TLC expects; generated/corpus/truncated/spliced texts are "
             "cycled for real and validated by TLC from the source text onwards.",
             "escaping-gap values and SSC charts without note data excluded by spec predicates; long texts at parameter level."),
+    "C07": ("notedata", "6/C07",
+            "TLC checks, on every grid of a bounded model (players x measures x rows x columns, keysound brackets) rendered "
+            "under 8 layouts, that decoding gives exactly the documented notes in strict position order with the right column "
+            "count; every grid text is iterated by the real NoteData (notes, columns, str, all six operators on every pair); "
+            "generated well-formed texts over the whole quantifier and corpus windows are decoded for real and re-decoded by TLC.",
+            "well-formed texts only; C2S texts capped at a few thousand characters; CPython strip/splitlines sets transcribed in Text.tla."),
+    "C08": ("notedata", "6/C08",
+            "TLC checks on every sorted stream of a bounded model (incl. the empty one, absent players, mixed denominators) that "
+            "the declarative encoding decodes back, has 4 x lcm rows per measure with blank skipped measures/players, and is "
+            "stable; from_notes is run on each stream and compared; random streams and decoded corpus/generated notes are "
+            "encoded for real and the emitted text is decoded and shape-checked by TLC.",
+            "streams sorted with unique positions (TLC checks the precondition); measure sizes capped for TLC."),
 }
 
 PENDING = {}
 
 ENGINES = [
+    ("notedata", "spec/notedata", ["C07", "C08"],
+     "NoteData.tla (decode / encode / position order) + MC_NoteData, MC_Encode (TLC BFS) + Trace_NoteData (TLC trace validation)"),
     ("codec", "spec/codec", ["C01", "C02", "C03", "C04"],
      "MSD.tla (tokenizer model) + Codec.tla (parse rules, serialization relation, detection) + MC_Codec / MC_Load / MC_MSD (TLC BFS) + Trace_Codec (TLC trace validation)"),
     ("object", "spec/object", ["C18"], "Object.tla + MC_Object (TLC BFS) + Trace_Object (TLC trace validation)"),
